@@ -48,6 +48,8 @@ pub struct Shape {
     /// an optional output `output ? gift { amount: Ada(g) }` declared first; with g = 0 it is dropped from
     /// the body, so that the body has fewer outputs than the template
     pub gift: Option<i128>,
+    /// attach a native script through cardano::native_witness (witness set only: the body is unaffected)
+    pub native_witness: bool,
 }
 
 pub fn program(s: &Shape) -> Program {
@@ -94,6 +96,13 @@ pub fn program(s: &Shape) -> Program {
             inputs: vec![Input { name: "source".into(), from: Some(E::Party("Sender".into())), min_amount: Some(min), ..Default::default() }],
             outputs,
             metadata: if s.metadata { vec![(E::Int(674), E::Str("fee test".into()))] } else { vec![] },
+            cardano: if s.native_witness {
+                let mut script = vec![0x82, 0x00, 0x58, 0x1c];
+                script.extend([0x5c; 28]);
+                vec![Cardano::NativeWitness { script: E::Hex(script) }]
+            } else {
+                vec![]
+            },
             ..Default::default()
         }],
         ..Default::default()
@@ -268,6 +277,7 @@ impl Property for C05 {
                 1 => Some(1_300_000),
                 _ => None,
             },
+            native_witness: false,
         };
         if shape.gift == Some(0) {
             ctx.count("shape/dropped-optional-output");
